@@ -382,4 +382,4 @@ pub fn shared_bits(a: &BitSlice<u8, Msb0>, b: &BitSlice<u8, Msb0>) -> usize {
 
 #[cfg(kani)]
 #[path = "/verif/units/kani/core_path_proof.rs"]
-mod verif_kani;
+pub(crate) mod verif_kani;
